@@ -9,42 +9,51 @@ COQ = os.path.join(HERE, "..", "coq")
 WORK = os.path.join(HERE, "..", ".work")
 
 
-def coq_eval(requires, exprs, prelude="", timeout=600, shard=400):
-    """requires: module names under JV (e.g. ['Connect']); exprs: Coq terms.
-    Returns the printed normal forms (strings), in order."""
-    os.makedirs(WORK, exist_ok=True)
-    out = []
-    for s in range(0, len(exprs), shard):
-        part = exprs[s:s + shard]
-        fd, path = tempfile.mkstemp(prefix="cases_", suffix=".v", dir=WORK)
-        name = os.path.basename(path)[:-2]
-        with os.fdopen(fd, "w") as f:
-            f.write("From Coq Require Import List ZArith QArith Bool String.\nImport ListNotations.\n")
-            for r in requires:
-                f.write(f"From JV Require Import {r}.\n")
-            f.write("Set Printing Width 1000000.\nSet Printing Depth 1000000.\n")
-            f.write(prelude + "\n")
-            for i, e in enumerate(part):
-                f.write(f'Goal True. let x := eval vm_compute in ({e}) in idtac "@@{s + i}@@" x. exact I. Qed.\n')
-        try:
-            p = subprocess.run(["timeout", str(timeout), "coqc", "-R", COQ, "JV", path], cwd=WORK,
-                               stdout=subprocess.PIPE, stderr=subprocess.STDOUT, text=True)
-        finally:
-            for ext in (".v", ".vo", ".glob", ".vok", ".vos"):
-                q = os.path.join(WORK, name + ext)
-                if os.path.exists(q):
-                    os.remove(q)
-            q = os.path.join(WORK, "." + name + ".aux")
+def _run_shard(requires, prelude, part, start, timeout):
+    fd, path = tempfile.mkstemp(prefix="cases_", suffix=".v", dir=WORK)
+    name = os.path.basename(path)[:-2]
+    with os.fdopen(fd, "w") as f:
+        f.write("From Coq Require Import List ZArith QArith Bool String.\nImport ListNotations.\n")
+        for r in requires:
+            f.write(f"From JV Require Import {r}.\n")
+        f.write("Set Printing Width 1000000.\nSet Printing Depth 1000000.\n")
+        f.write(prelude + "\n")
+        for i, e in enumerate(part):
+            f.write(f'Goal True. let x := eval vm_compute in ({e}) in idtac "@@{start + i}@@" x. exact I. Qed.\n')
+    try:
+        p = subprocess.run(["timeout", str(timeout), "coqc", "-R", COQ, "JV", path], cwd=WORK,
+                           stdout=subprocess.PIPE, stderr=subprocess.STDOUT, text=True)
+    finally:
+        for ext in (".v", ".vo", ".glob", ".vok", ".vos"):
+            q = os.path.join(WORK, name + ext)
             if os.path.exists(q):
                 os.remove(q)
-        if p.returncode != 0:
-            raise RuntimeError("coqc failed on generated cases:\n" + p.stdout[-2000:])
-        res = {}
-        for m in re.finditer(r"@@(\d+)@@ (.*)", p.stdout):
-            res[int(m.group(1))] = m.group(2).strip()
-        for i in range(len(part)):
-            out.append(res[s + i])
-    return out
+        q = os.path.join(WORK, "." + name + ".aux")
+        if os.path.exists(q):
+            os.remove(q)
+    if p.returncode != 0:
+        raise RuntimeError("coqc failed on generated cases:\n" + p.stdout[-2000:])
+    res = {}
+    for m in re.finditer(r"@@(\d+)@@ (.*)", p.stdout):
+        res[int(m.group(1))] = m.group(2).strip()
+    return res
+
+
+def coq_eval(requires, exprs, prelude="", timeout=900, shard=None, jobs=16):
+    """requires: module names under JV (e.g. ['Connect']); exprs: Coq terms.
+    Returns the printed normal forms (strings), in order.  Shards run in parallel."""
+    from concurrent.futures import ThreadPoolExecutor
+    os.makedirs(WORK, exist_ok=True)
+    if not exprs:
+        return []
+    if shard is None:
+        shard = max(1, min(400, -(-len(exprs) // jobs)))
+    parts = [(s, exprs[s:s + shard]) for s in range(0, len(exprs), shard)]
+    res = {}
+    with ThreadPoolExecutor(max_workers=jobs) as ex:
+        for r in ex.map(lambda sp: _run_shard(requires, prelude, sp[1], sp[0], timeout), parts):
+            res.update(r)
+    return [res[i] for i in range(len(exprs))]
 
 
 def coq_list(xs):
